@@ -52,7 +52,7 @@ impl Prop for C03 {
     }
     fn runs(&self, tier: Tier) -> u64 {
         match tier {
-            Tier::Quick => 320,
+            Tier::Quick => 480,
             Tier::Thorough => 6000,
         }
     }
